@@ -255,10 +255,11 @@ def c10_cases(rng, thorough):
     cs = common.Cases()
     expect = {}
     shapes = [[], [0], [0, 0, 0], [1], [5, 0, 7], [300], [255, 256, 1]]
-    shapes += [[rng.randrange(0, 12) for _ in range(rng.randrange(0, 30))] for _ in range(12 if thorough else 5)]
+    shapes += [[rng.randrange(0, 12) for _ in range(rng.randrange(0, 30))] for _ in range(40 if thorough else 16)]
+    shapes += [[2, 0, 1, 65, 3], [4] * 7, [1] * 64, [0] * 40, [1000, 2000, 3], [65531], [32766, 32765]]
     shapes += [[rng.randrange(0, 4) for _ in range(n)] for n in ((255, 256, 257, 300, 400) if thorough else (256, 300))]
     for lens in shapes:
-        strs = [bytes(rng.getrandbits(8) for _ in range(n)) for n in lens]
+        strs = [structured_bytes(rng, n) for n in lens]
         packed = b"".join(be(2, len(s)) + s for s in strs)
         if len(packed) > 65535:
             continue
